@@ -112,11 +112,78 @@ def cmdTrie (args : List String) : String :=
     ";".intercalate out
   | _ => "bad-request"
 
+/-! ### types (C14) -/
+open DDP.Types in
+partial def parseTy : List Char → Option (Ty × List Char)
+  | 'Z' :: r => some (.prim .zahl, r)
+  | 'K' :: r => some (.prim .komma, r)
+  | 'B' :: r => some (.prim .byte, r)
+  | 'W' :: r => some (.prim .wahr, r)
+  | 'C' :: r => some (.prim .buchstabe, r)
+  | 'T' :: r => some (.prim .text, r)
+  | 'N' :: r => some (.void, r)
+  | 'V' :: r => some (.variable, r)
+  | 'L' :: '(' :: r => do
+    let (t, r) ← parseTy r
+    match r with | ')' :: r => some (.list t, r) | _ => none
+  | 'A' :: '(' :: r => do
+    let (t, r) ← parseTy r
+    match r with | ')' :: r => some (.alias t, r) | _ => none
+  | 'S' :: r =>
+    let ds := r.takeWhile Char.isDigit
+    some (.struct (String.ofList ds).toNat!, r.dropWhile Char.isDigit)
+  | 'D' :: r =>
+    let ds := r.takeWhile Char.isDigit
+    match r.dropWhile Char.isDigit with
+    | '(' :: r => do
+      let (t, r) ← parseTy r
+      match r with | ')' :: r => some (.typedef (String.ofList ds).toNat! t, r) | _ => none
+    | _ => none
+  | _ => none
+
+open DDP.Types in
+def showTy : Ty → String
+  | .prim .zahl => "Z" | .prim .komma => "K" | .prim .byte => "B" | .prim .wahr => "W"
+  | .prim .buchstabe => "C" | .prim .text => "T" | .void => "N" | .variable => "V"
+  | .list e => "L(" ++ showTy e ++ ")"
+  | .alias u => "A(" ++ showTy u ++ ")"
+  | .struct i => s!"S{i}"
+  | .typedef i u => s!"D{i}(" ++ showTy u ++ ")"
+
+open DDP.Types in
+def cmdTypes (args : List String) : String :=
+  match args with
+  | [a, b] =>
+    match parseTy a.toList, parseTy b.toList with
+    | some (a, []), some (b, []) =>
+      let one (i : Nat) (t : Ty) : String :=
+        s!" gu{i}={showTy (getUnderlying t)} tu{i}={showTy (trueUnderlying t)} num{i}={b2s (isNumeric t)} prim{i}={b2s (isPrimitive t)} list{i}={b2s (isList t)} any{i}={b2s (isAny t)} void{i}={b2s (isVoid t)} def{i}={b2s (castTypeDef t).isSome}"
+      s!"equal={b2s (equal a b)} deep={b2s (deepEqual a b)}" ++ one 0 a ++ one 1 b
+    | _, _ => "bad-type"
+  | _ => "bad-request"
+
+open DDP.Types in
+/-- `typos <init|assign|cast> <t1> <t2>`: t1 supplied where t2 is required -/
+def cmdTypos (args : List String) : String :=
+  match args with
+  | [pos, a, b] =>
+    match parseTy a.toList, parseTy b.toList with
+    | some (a, []), some (b, []) =>
+      match pos with
+      | "init" => b2s (initOk b a)
+      | "assign" => b2s (assignOk b a)
+      | "cast" => b2s (castOk a b)
+      | _ => "bad-request"
+    | _, _ => "bad-type"
+  | _ => "bad-request"
+
 def dispatch (line : String) : String :=
   match (line.splitOn " ").filter (· ≠ "") with
   | "scan" :: args => cmdScan args
   | "tokcmp" :: args => cmdTokcmp args
   | "trie" :: args => cmdTrie args
+  | "types" :: args => cmdTypes args
+  | "typos" :: args => cmdTypos args
   | _ => "bad-request"
 
 partial def loop (h : IO.FS.Stream) (out : IO.FS.Stream) : IO Unit := do
